@@ -7,3 +7,9 @@ for d in seeded/S*; do
   r=$(tools/try_mutant.sh $d/patch.diff $p 2>&1 | grep -E "^== " | tr '\n' ' ')
   echo "$(basename $d) $r"
 done
+# self-written mutants (m03 turned out not to break its property and is expected to stay quiet)
+for f in selftest/m*.diff; do
+  p=$(basename $f | sed -E 's/^m[0-9]+_(C[0-9]+)_.*/\1/')
+  r=$(tools/try_mutant.sh $f $p 2>&1 | grep -E "^== " | tr '\n' ' ')
+  echo "$(basename $f) $r"
+done
